@@ -6,6 +6,7 @@ import (
 	"fmt"
 	"net/http"
 	"net/http/httptest"
+	neturl "net/url"
 	"sort"
 	"strings"
 
@@ -54,22 +55,22 @@ type Case struct {
 
 // OpResult is what an executed op produced.
 type OpResult struct {
-	NoOp     bool
-	Pod      *PodRec
-	Nodes    []string // filter result
-	Err      error
-	Crashed  bool
-	HTTPCode int
-	Body     string
-	Released []string
-	Entry    *api.FloatingIP
-	Info     string
-	Before   *Snapshot // IPAM state right before the op's galaxy-ipam call
+	NoOp       bool
+	Pod        *PodRec
+	Nodes      []string // filter result
+	Err        error
+	Crashed    bool
+	HTTPCode   int
+	Body       string
+	Released   []string
+	Entry      *api.FloatingIP
+	Info       string
+	Before     *Snapshot // IPAM state right before the op's galaxy-ipam call
 	BeforeBind *Snapshot // for sched: state between Filter and Bind
-	After    *Snapshot // state after Filter (sched/filter ops)
-	UnbindPod *corev1.Pod
+	After      *Snapshot // state after Filter (sched/filter ops)
+	UnbindPod  *corev1.Pod
 	Concurrent bool // ran inside an episode with >= 2 tasks
-	BoundNow bool // the pod's binding was applied by this op
+	BoundNow   bool // the pod's binding was applied by this op
 }
 
 // Snapshot is a copy of the IPAM memory.
@@ -141,7 +142,6 @@ type Exec struct {
 	// bookkeeping for oracles
 	LastResults []*OpResult
 }
-
 
 func (x *Exec) count(k string) { x.Stats[k]++ }
 
@@ -229,6 +229,14 @@ func (x *Exec) HTTP(method, url string, body []byte) (int, string) {
 		rd = bytes.NewReader(body)
 	} else {
 		rd = bytes.NewReader(nil)
+	}
+	if _, err := neturl.ParseRequestURI(url); err != nil {
+		return 400, "malformed request line (rejected by the HTTP server before any handler runs)"
+	}
+	for _, ch := range url {
+		if ch <= ' ' || ch >= 0x7f {
+			return 400, "malformed request line (rejected by the HTTP server before any handler runs)"
+		}
 	}
 	req := httptest.NewRequest(method, url, rd)
 	req.Header.Set("Content-Type", "application/json")
